@@ -60,12 +60,13 @@ Definition obs_eqb (a b : obs) : bool :=
 Inductive ccase : Type :=
 | Case (F : forest) (p : paradigm) (cancel_before : bool) (in_item : option err) (o : obs)
 | CaseN (F : forest) (p : paradigm) (cancel_before : bool) (in_item : option err) (os : list obs)
-| FwdCase (srcs : list (list selem)) (o : fobs).
+| FwdCase (srcs : list (list selem)) (o : fobs)
+| FwdChild (src : list selem) (o : fobs).   (* one child of a copied source read directly *)
 
 Definition legal (c : ccase) : list (option obs) :=
   match c with
   | Case F p cb ii _ | CaseN F p cb ii _ => map obs_of (answers F p cb ii)
-  | FwdCase _ _ => []
+  | FwdCase _ _ | FwdChild _ _ => []
   end.
 
 Definition is_legal (ls : list (option obs)) (o : obs) : bool :=
@@ -76,6 +77,7 @@ Definition bad (c : ccase) : bool :=
   | Case F p cb ii o => negb (is_legal (legal c) o)
   | CaseN F p cb ii os => let ls := legal c in negb (forallb (is_legal ls) os) || match os with [] => true | _ => false end
   | FwdCase srcs o => negb (fwd_legal srcs o)
+  | FwdChild src o => negb (child_legal src o)
   end.
 
 Definition mismatches (cs : list ccase) : list nat := mismatches_from bad 0 cs.
